@@ -503,6 +503,11 @@ class Interp:
 
     def call_func(self, f: FuncRef, args, kwargs, node=None):
         s = self.summaries.get(f.qualname)
+        if s is None and self.summaries:
+            for al in self.repo.aliases_of(f.qualname):      # a summary keyed by a name the function is re-exported under
+                if al in self.summaries:
+                    s = self.summaries[al]
+                    break
         if s is not None:
             r = s(self, f, list(args), dict(kwargs), node)
             if r is not NotImplemented:
